@@ -138,12 +138,13 @@ type checker struct {
 	mu      sync.Mutex
 	evals   int64
 	nontriv map[string]bool
+	pass    string // appended to failure texts (which pass of the enumeration)
 }
 
 func (c *checker) bad(tg, src, class, format string, a ...interface{}) {
 	c.mu.Lock()
 	defer c.mu.Unlock()
-	c.r.Violation(fmt.Sprintf("C02|%s<-%s|%s", tg, src, class), fmt.Sprintf(format, a...), map[string]interface{}{"target": tg, "source_type": src, "failure": fmt.Sprintf(format, a...)})
+	c.r.Violation(fmt.Sprintf("C02|%s<-%s|%s", tg, src, class), fmt.Sprintf(format, a...)+c.pass, map[string]interface{}{"target": tg, "source_type": src, "failure": fmt.Sprintf(format, a...) + c.pass})
 }
 
 func render(v interface{}) string {
@@ -359,6 +360,36 @@ func main() {
 			c.stringCell(&ts[i], s)
 		}
 	}
+	// ---- the same conversions again in the opposite order (targets and sources reversed): a conversion's
+	// answer is a function of the value alone, not of which conversions were evaluated before it
+	c.pass = " [second pass: widest target first, after every conversion has been evaluated once]"
+	for si := len(strs) - 1; si >= 0; si-- {
+		for i := len(ts) - 1; i >= 0; i-- {
+			c.evals++
+			c.stringCell(&ts[i], strs[si])
+		}
+	}
+	seen2 := map[string]bool{}
+	for idx := len(sources) - 1; idx >= nSmall; idx-- {
+		v := sources[idx]
+		key := fmt.Sprintf("%T|%v", v, v)
+		if f, ok := v.(float64); ok {
+			key = fmt.Sprintf("f64|%x", math.Float64bits(f))
+		}
+		if f, ok := v.(float32); ok {
+			key = fmt.Sprintf("f32|%x", math.Float32bits(f))
+		}
+		if seen2[key] {
+			continue
+		}
+		seen2[key] = true
+		n, _ := exactOf(v)
+		for i := len(ts) - 1; i >= 0; i-- {
+			c.evals++
+			c.cell(&ts[i], v, n)
+		}
+	}
+	c.pass = ""
 	// ---- unsupported kinds
 	for _, v := range []interface{}{struct{}{}, []int{1}, map[string]int{}, complex(1, 1), func() {}, [1]int{1}} {
 		for i := range ts {
